@@ -427,6 +427,10 @@ func cmdCheck(repo, verif, prop, tier string) int {
 				suffix = ""
 			}
 			fmt.Fprintf(&b, "\nquery hash: %s\n", o.QueryHash())
+		} else if runReplay(c, &Oblig{Name: name}, &b) {
+			// no obligation to show (the contract no longer attaches); a stored scenario registered
+			// for this function still says whether the real code misbehaves
+			suffix = ""
 		}
 		os.WriteFile(rf, []byte(b.String()), 0o644)
 		lines = append(lines, fmt.Sprintf("VIOLATION property=%s replay=%s%s", prop, rf, suffix))
